@@ -142,7 +142,11 @@ def run_apply(E, case):
     res = _blank()
     F = z3.Function("user_func", z3.IntSort(), *([z3.RealSort()] * N), z3.RealSort())
 
+    aliased = []
+
     def user(sub):
+        if isinstance(sub, A) and sub.st.origin is not None:
+            aliased.append(sub.st.origin)          # the callback was handed a view of caller-owned storage
         cells = sub.cells if isinstance(sub, A) else list(sub)
         args = [c.v if isinstance(c, SF) else z3.RealVal(c) for c in cells] + [z3.RealVal(0)] * (N - len(cells))
         return SF(False, F(z3.IntVal(len(cells)), *args))
@@ -165,6 +169,7 @@ def run_apply(E, case):
             vals = [A(c, "float64").tag("input:values") for c in cols]
             mask = A(list(mbits), "bool").tag("input:mask") if mbits is not None else None
             extra = {"codes": list(codes), "mask": list(mbits) if mbits is not None else None}
+            del aliased[:]
             try:
                 out = gb.apply(vals if ncols > 1 else vals[0], user, mask, bool(case.get("transform")))
             except (Unsupported, OutsideModel):
@@ -182,6 +187,8 @@ def run_apply(E, case):
             sel = [codes[i] >= 0 and (mbits is None or mbits[i]) for i in range(N)]
             groups = [g for g in (order or range(G)) if any(sel[i] and codes[i] == g for i in range(N))]
             bl = []
+            if aliased:
+                bl.append(("the user function is handed an array that aliases caller-owned storage (C19)", True))
             if case.get("transform"):
                 arr = series[0].arr if isinstance(series[0], FakeSeries) else series[0]
                 cells = arr.cells if isinstance(arr, A) else [x for x in real_np.asarray(arr, dtype=object).ravel()]
@@ -279,7 +286,15 @@ def replay(case, conc, cand=None):
         gb = GroupBy(cat)
         cols = [real_np.array([float(x) for x in conc[f"v{c}_"]]) for c in range(ncols)]
         mask = real_np.array(case["mask"], dtype=bool) if case.get("mask") is not None else None
-        out = gb.apply(cols if ncols > 1 else cols[0], lambda a: float(real_np.sum(a * real_np.arange(1, len(a) + 1))), mask)
+        shared = []
+
+        def cb(a):
+            if any(real_np.shares_memory(a, c_) for c_ in cols):
+                shared.append(True)
+            return float(real_np.sum(a * real_np.arange(1, len(a) + 1)))
+        out = gb.apply(cols if ncols > 1 else cols[0], cb, mask)
+        if shared:
+            return True, {"problem": "the user function received a view of the caller's values array (an in-place callback would modify the input)", "codes": codes}
         sel = [codes[i] >= 0 and (mask is None or mask[i]) for i in range(N)]
         bad = []
         frame = out.to_frame() if isinstance(out, pd.Series) else out
